@@ -15,7 +15,7 @@ func TestC04(t *testing.T) {
 	mon.Main(t, mon.Check{
 		ID:          "C04",
 		Level:       "exploration",
-		Rule:        "real noise Machines over an in-memory duplex with a man in the middle on both directions. For each of the 36 (clientMin<=clientMax, serverMin<=serverMax) version-range combinations x {XX, KK} x auth payload sizes {0,1,4,498,499,500,65535,65536,200000(quick)/3 MiB(thorough)}: (U) the untampered handshake; (V) every substitution of the version byte of each act by 0..3, all 4^3 (XX) / 4^2 (KK) combinations across the acts; (B) single-bit flips of every handshake byte (thorough: all 8 bits of every byte for payloads <= 600 bytes, first/last 64 bytes of each act plus a PRNG sample for larger ones; quick: one PRNG-chosen bit of every byte, for payload sizes 0, 498 and 499). Oracle per trial: NOT(both DoHandshake calls returned nil AND the views differ), where a view = negotiated version, complementary send/recv traffic keys, the peer's true static key, the initiator's received payload equal to the responder's auth payload, and the ConnData callbacks consistent with it (remote key stored iff version >= 2). Control: equal version ranges must complete untampered. (Q) 96 (quick) / 1200 (thorough) sequences on the same ConnData objects: a pairing in which the transport write of act one, two or three fails (whole, half or all but one byte) - a party whose handshake failed must have published nothing (callbacks, stored key, auth data); the pairing repeated without a fault must complete with agreeing views; then two reconnects of the paired parties with the responder's auth payload replaced by a longer, shorter or empty one: the initiator must hold exactly the latest payload. Non-trivial = a trial in which at least one side completed; distinct = (pattern, ranges, payload size, tampering).",
+		Rule:        "real noise Machines over an in-memory duplex with a man in the middle on both directions. For each of the 36 (clientMin<=clientMax, serverMin<=serverMax) version-range combinations x {XX, KK} x auth payload sizes {0,1,4,498,499,500,65535,65536,200000(quick)/3 MiB(thorough)}: (U) the untampered handshake; (V) every substitution of the version byte of each act by 0..3, all 4^3 (XX) / 4^2 (KK) combinations across the acts; (B) single-bit flips of every handshake byte (thorough: all 8 bits of every byte for payloads <= 600 bytes, first/last 64 bytes of each act plus a PRNG sample for larger ones; quick: one PRNG-chosen bit of every byte, for payload sizes 0, 498 and 499). Oracle per trial: NOT(both DoHandshake calls returned nil AND the views differ), where a view = negotiated version, complementary send/recv traffic keys, the peer's true static key, the initiator's received payload equal to the responder's auth payload, and the ConnData callbacks consistent with it (remote key stored iff version >= 2). Control: equal version ranges must complete untampered. (Q) 96 (quick) / 1200 (thorough) sequences on the same ConnData objects: a pairing in which the transport write of act one, two or three fails (whole, half or all but one byte) - a party whose handshake failed must have published nothing (callbacks, stored key, auth data); the pairing repeated without a fault must complete with agreeing views; then two reconnects of the paired parties with the responder's auth payload replaced by a longer, shorter or empty one: the initiator must hold exactly the latest payload. Half of the responder payload slices have spare capacity and are compared with a snapshot afterwards; the ConnData of the last eight completed initiators of the worker are looked at again before every case (their payload must not change through other sessions' handshakes). Non-trivial = a trial in which at least one side completed; distinct = (pattern, ranges, payload size, tampering).",
 		Assumptions: []string{"which range combinations complete is not judged (except equal ranges)"},
 		NCases: func(tier string) int {
 			if tier == "thorough" {
